@@ -52,9 +52,41 @@ def seeds_table():
     return '\n'.join(out)
 
 
+def status_table(d):
+    import importlib.util
+    out = ['| property | theorem files (CpProps) | theorems | repairs in /repo | known findings | seeded changes caught |',
+           '|---|---|---|---|---|---|']
+    props = ['C%02d' % i for i in range(1, 20)]
+    seeds = {}
+    for path in sorted(glob.glob(os.path.join(VERIF, 'seeded', '*', 'meta.json'))):
+        m = json.load(open(path))
+        if m.get('note', '').startswith('superseded'):
+            continue
+        caught = any(r.get('detected') for r in m.get('checks_run', {}).values())
+        a, b = seeds.get(m['property'], (0, 0))
+        seeds[m['property']] = (a + (1 if caught else 0), b + 1)
+    for pid in props:
+        mods = []
+        path = os.path.join(VERIF, 'harness', 'props', pid.lower() + '.py')
+        if os.path.exists(path):
+            m = re.search(r"LEAN_MODULES = \[(.*?)\]", open(path).read(), re.S)
+            if m:
+                mods = re.findall(r"'CpProps\.([A-Za-z0-9_]+)'", m.group(1))
+        n = 0
+        for mod in mods:
+            f = os.path.join(VERIF, 'lean', 'CpProps', mod + '.lean')
+            if os.path.exists(f):
+                n += sum(1 for line in open(f) if line.startswith('theorem '))
+        fixed = sum(1 for f in d['fixed'] if f['property'] == pid)
+        known = sum(1 for f in d['findings'] if f['property'] == pid)
+        a, b = seeds.get(pid, (0, 0))
+        out.append('| {} | {} | {} | {} | {} | {} |'.format(pid, ', '.join(mods) or '—', n, fixed, known, '{}/{}'.format(a, b) if b else '—'))
+    return '\n'.join(out)
+
+
 def main():
     d = json.load(open(os.path.join(VERIF, 'known_findings.json')))
-    blocks = {'FIXED': fixed_table(d), 'FINDINGS': findings_table(d), 'SEEDS': seeds_table()}
+    blocks = {'FIXED': fixed_table(d), 'FINDINGS': findings_table(d), 'SEEDS': seeds_table(), 'STATUS': status_table(d)}
     if '--write' not in sys.argv:
         for k, v in blocks.items():
             print('<!-- BEGIN {} -->\n{}\n<!-- END {} -->\n'.format(k, v, k))
